@@ -376,7 +376,10 @@ func (s *statsManager) decInflight(clientID string, delta uint64) {
 	// Avoid the counter to be negative.
 	// This could happen if the broker is start with persistence data loaded and send messages from the persistent queue.
 	// Because the statistic data is not persistent, the init value is always 0.
-	if atomic.LoadUint64(&sts.MessageStats.InflightCurrent) == 0 {
+	if cur := atomic.LoadUint64(&sts.MessageStats.InflightCurrent); cur < delta {
+		delta = cur
+	}
+	if delta == 0 {
 		return
 	}
 	atomic.AddUint64(&sts.MessageStats.InflightCurrent, ^uint64(delta-1))
@@ -397,7 +400,10 @@ func (s *statsManager) decQueueLen(clientID string, delta uint64) {
 	// Avoid the counter to be negative.
 	// This could happen if the broker is start with persistence data loaded and send messages from the persistent queue.
 	// Because the statistic data is not persistent, the init value is always 0.
-	if atomic.LoadUint64(&sts.MessageStats.QueuedCurrent) == 0 {
+	if cur := atomic.LoadUint64(&sts.MessageStats.QueuedCurrent); cur < delta {
+		delta = cur
+	}
+	if delta == 0 {
 		return
 	}
 	atomic.AddUint64(&sts.MessageStats.QueuedCurrent, ^uint64(delta-1))
